@@ -102,3 +102,65 @@ Print Assumptions C05_board_text_is_parsed_exactly.
 Print Assumptions C05_start_fen_is_such_a_text.
 Print Assumptions C05_startpos_games_stay_inside_the_invariant.
 Print Assumptions C05_moves_preserve_the_invariant.
+
+(* ------------------------------------------------------------------ at the level of the main loop (Model/Uci.v) *)
+From JV Require Import Model.Uci Props.C03 Props.C17.
+(* in every state a session reaches the recorded game history is either empty (fresh engine, after ucinewgame) or ends with the key of the
+   current position: `position` records the base position and one key per move, `move` appends one key per move, searches and the inspecting
+   commands touch neither the position nor the history -- so the position a `go` searches is always the newest entry of its own history, with
+   the right key (the key part of the invariant: C04 at the level of the main loop) *)
+Definition history_tracks_position (u : ustate) : Prop := u_rep u = [] \/ List.last (u_rep u) 0%N = hash (u_game u).
+
+Lemma last_map_hash (ps : list game) g : ps <> [] -> List.last (map hash ps) 0%N = hash (List.last ps g).
+Proof.
+  induction ps as [|p r IH]; intros NE; [contradiction|]. destruct r as [|q r]; [reflexivity|].
+  change (List.last (map hash (p :: q :: r)) 0%N) with (List.last (map hash (q :: r)) 0%N).
+  change (List.last (p :: q :: r) g) with (List.last (q :: r) g). apply IH. discriminate.
+Qed.
+Lemma last_app_ne {A} (l1 l2 : list A) d : l2 <> [] -> List.last (l1 ++ l2)%list d = List.last l2 d.
+Proof.
+  intros NE. induction l1 as [|x l1 IH]; [reflexivity|]. cbn [app]. destruct (l1 ++ l2)%list as [|a l] eqn:E.
+  - destruct l1, l2; try discriminate; contradiction.
+  - cbn [List.last]. exact IH.
+Qed.
+
+Theorem C05_main_loop_history_tracks_the_position : forall extra u line input,
+  history_tracks_position u ->
+  let '(u', _, _, _, _) := uci_step extra u line input in history_tracks_position u'.
+Proof.
+  intros extra u line input HT.
+  set (cmd := lower_str (first_token (trim line))).
+  destruct (String.eqb_spec cmd "position") as [EP|NP].
+  { unfold uci_step. cbv zeta. destruct (String.eqb (trim line) ""); [exact HT|]. fold cmd. rewrite EP. cbn [String.eqb Ascii.eqb Bool.eqb orb].
+    destruct (negb _); [exact HT|].
+    destruct (parse_position (skip 9 (trim line))) as [[g rep]| |] eqn:PP; try exact HT.
+    right. cbn [u_rep u_game]. destruct (parse_position_history _ g rep PP) as (base & ps & -> & ->).
+    destruct ps as [|p r]; [reflexivity|].
+    change (List.last (hash base :: map hash (p :: r)) 0%N) with (List.last (map hash (p :: r)) 0%N). apply last_map_hash. discriminate. }
+  destruct (String.eqb_spec cmd "move") as [EM|NM].
+  { unfold uci_step. cbv zeta. destruct (String.eqb (trim line) ""); [exact HT|]. fold cmd. rewrite EM. cbn [String.eqb Ascii.eqb Bool.eqb orb].
+    destruct (play_moves (u_game u) (u_rep u) (rest_tokens (trim line))) as [[g rep]| |] eqn:PM; try exact HT.
+    cbn [u_rep u_game]. unfold history_tracks_position. cbn [u_rep u_game].
+    destruct (play_moves_history _ _ _ _ _ PM) as (ps & _ & -> & ->).
+    destruct ps as [|p r]; [rewrite app_nil_r; exact HT|].
+    right. rewrite last_app_ne by discriminate. apply last_map_hash. discriminate. }
+  destruct (String.eqb_spec cmd "ucinewgame") as [EU|NU].
+  { unfold uci_step. cbv zeta. destruct (String.eqb (trim line) ""); [exact HT|]. fold cmd. rewrite EU. cbn [String.eqb Ascii.eqb Bool.eqb orb]. left. reflexivity. }
+  destruct (String.eqb_spec cmd "cleartt") as [EC|NC].
+  { unfold uci_step. cbv zeta. destruct (String.eqb (trim line) ""); [exact HT|]. fold cmd. rewrite EC. cbn [String.eqb Ascii.eqb Bool.eqb orb]. left. reflexivity. }
+  pose proof (C17_inspecting_commands_keep_position_and_history extra u line input NP NU NC NM) as K.
+  destruct (uci_step extra u line input) as [[[[u' o] rq] i'] st]. destruct K as (K1 & K2).
+  unfold history_tracks_position. rewrite K1, K2. exact HT.
+Qed.
+
+Theorem C05_every_session_state_tracks_its_position : forall extra u, session_state extra u ->
+  history_tracks_position u /\ hash (u_game u) = make_zobrist_hash (u_game u).
+Proof.
+  intros extra u H. split.
+  - induction H as [|u line input u' outs rq input' st _ IH OK E]; [left; reflexivity|].
+    pose proof (C05_main_loop_history_tracks_the_position extra u line input IH) as K. rewrite E in K. exact K.
+  - destruct (C03_every_session_state_holds_a_legal_position extra u H) as (_ & _ & _ & _ & K). exact K.
+Qed.
+
+Print Assumptions C05_main_loop_history_tracks_the_position.
+Print Assumptions C05_every_session_state_tracks_its_position.
